@@ -240,6 +240,11 @@ class Judge:
                 if G is None:
                     continue
                 self.frames_checked += 1
+                if G == 0:
+                    # connected but subscribed to nothing (all services dropped, or none granted): no frame is due.  The library discards what
+                    # arrives while it waits for the reply to its own request, so a frame logged here was sent after the daemon had processed it
+                    self.v(P + ':frame-without-subscription', '%s received frame %d (%d lines) although no service is granted to it' % (name, n, nl))
+                    self.classes.add('frame-without-subscription')
                 if not exact:
                     self.v(P + ':timestamp-not-n/25', '%s frame n=%d timestamp differs from n/25.0' % (name, n))
                 if prev is not None:
